@@ -10,14 +10,16 @@ Theorem C12_cancel_all : C12_cancel_all_statement.
 Proof. exact C12Facts.C12_cancel_all. Qed.
 Print Assumptions C12_cancel_all.
 
-Theorem C12_pinned_join_refuted : P12 (close false true true true true [] 0 (mkCS false 1 0 false true 0 [] [])) = false.
+Theorem C12_pinned_join_refuted : P12 (close false true true true true true [] 0 (Some 0%N) (mkCS false 1 0 false true 0 [] [])) = false.
 Proof. exact C12Facts.C12_pinned_join_refuted. Qed.
-Theorem C12_pinned_disconnected_refuted : P12 (close true false true true true [] 0 (mkCS false 0 0 false true 2 [] [])) = false.
+Theorem C12_pinned_disconnected_refuted : P12 (close true false true true true true [] 0 (Some 0%N) (mkCS false 0 0 false true 2 [] [])) = false.
 Proof. exact C12Facts.C12_pinned_disconnected_refuted. Qed.
-Theorem C12_pinned_merge_refuted : P12 (close true true false true true [] 0 (mkCS true 0 0 false false 0 [(0, 1); (4, 1)]%nat [(0, 1)]%nat)) = false.
+Theorem C12_pinned_merge_refuted : P12 (close true true false true true true [] 0 (Some 0%N) (mkCS true 0 0 false false 0 [(0, 1); (4, 1)]%nat [(0, 1)]%nat)) = false.
 Proof. exact C12Facts.C12_pinned_merge_refuted. Qed.
-Theorem C12_pinned_cancel_refuted : P12 (close true true true false true [false; true] 0 (mkCS false 0 0 false true 0 [] [])) = false.
+Theorem C12_pinned_cancel_refuted : P12 (close true true true false true true [false; true] 0 (Some 0%N) (mkCS false 0 0 false true 0 [] [])) = false.
 Proof. exact C12Facts.C12_pinned_cancel_refuted. Qed.
-Theorem C12_pinned_recancel_refuted : P12 (close true true true true false [] 1 (mkCS true 1 0 false true 0 [] [])) = false.
+Theorem C12_pinned_recancel_refuted : P12 (close true true true true false true [] 1 (Some 0%N) (mkCS true 1 0 false true 0 [] [])) = false.
 Proof. exact C12Facts.C12_pinned_recancel_refuted. Qed.
+Theorem C12_pinned_closewait_refuted : P12 (close true true true true true false [] 0 None (mkCS true 0 0 false false 1 [] [])) = false.
+Proof. exact C12Facts.C12_pinned_closewait_refuted. Qed.
 Print Assumptions C12_pinned_merge_refuted.
